@@ -14,9 +14,11 @@ import (
 	"os"
 	"os/exec"
 	"path/filepath"
+	"reflect"
 	"sort"
 	"strings"
 	"time"
+	"unsafe"
 
 	"verifharness/lib"
 
@@ -47,6 +49,7 @@ type BatchStatus struct {
 	BuildSec  float64 `json:"build_s"`
 	Log       string  `json:"log"`
 	NodeRuns  int     `json:"node_runs"`
+	Adj       string  `json:"adj"` // the AdjunctCfg the batch was generated with ("" = union memory layouts only)
 }
 
 type NodeDiff struct {
@@ -111,8 +114,60 @@ func repoDir() string {
 	return "/repo"
 }
 
+// setUnexported stores val into an unexported field of the AdjunctCfg (the generator's own tests set these
+// fields from inside the package; there is no exported way, so the harness goes through reflect/unsafe).
+func setUnexported(adj *gengo.AdjunctCfg, field string, val interface{}) {
+	f := reflect.ValueOf(adj).Elem().FieldByName(field)
+	if !f.IsValid() {
+		panic("AdjunctCfg has no field " + field)
+	}
+	reflect.NewAt(f.Type(), unsafe.Pointer(f.UnsafeAddr())).Elem().Set(reflect.ValueOf(val))
+}
+
+var schPreludeNames = map[string]bool{"Bool": true, "Int": true, "Float": true, "String": true, "Bytes": true, "Link": true}
+
+// fullAdjunct fills every override the generator's AdjunctCfg has: a Go symbol for every struct field
+// (lower and upper), type symbols for about half of the declared types, MaybeUsesPtr forced either way
+// for about two thirds of the types, union memory layouts.  Overrides rename Go symbols and move values
+// between embedded and pointer Maybes; none of them may change what the package does.
+func fullAdjunct(adj *gengo.AdjunctCfg, types map[string]schema.Type, names []string, rng *lib.Rng) (map[string]string, string) {
+	adj.FieldSymbolLowerOverrides = map[gengo.FieldTuple]string{}
+	upper := map[gengo.FieldTuple]string{}
+	tsym := map[schema.TypeName]string{}
+	ptr := map[schema.TypeName]bool{}
+	sym := map[string]string{}
+	for _, name := range names {
+		sym[name] = name
+		if !schPreludeNames[name] && rng.Chance(50) {
+			tsym[name] = "Zt" + name
+			sym[name] = "Zt" + name
+		}
+		switch rng.Intn(3) {
+		case 0:
+			ptr[name] = true
+		case 1:
+			ptr[name] = false
+		}
+		if st, ok := types[name].(*schema.TypeStruct); ok {
+			for _, f := range st.Fields() {
+				adj.FieldSymbolLowerOverrides[gengo.FieldTuple{TypeName: name, FieldName: f.Name()}] = "fz_" + f.Name()
+				// FieldSymbolUpper looks its table up by the FIELD's type name; both spellings get the same
+				// symbol so that the package is well formed whichever key is consulted
+				up := "Fz" + strings.Title(f.Name())
+				upper[gengo.FieldTuple{TypeName: name, FieldName: f.Name()}] = up
+				upper[gengo.FieldTuple{TypeName: f.Type().Name(), FieldName: f.Name()}] = up
+			}
+		}
+	}
+	setUnexported(adj, "typeSymbolOverrides", tsym)
+	setUnexported(adj, "fieldSymbolUpperOverrides", upper)
+	setUnexported(adj, "maybeUsesPtr", ptr)
+	return sym, fmt.Sprintf("field symbols lower+upper: %d, type symbols: %d, maybeUsesPtr forced: %d, union layouts: %d",
+		len(adj.FieldSymbolLowerOverrides), len(tsym), len(ptr), len(adj.CfgUnionMemlayout))
+}
+
 // generate + build one batch; returns the path of the built driver ("" on failure)
-func buildBatch(dir string, schemas []*lib.SchTy, rng *lib.Rng, st *BatchStatus) string {
+func buildBatch(dir string, schemas []*lib.SchTy, rng *lib.Rng, st *BatchStatus, full bool) string {
 	os.RemoveAll(dir)
 	if err := os.MkdirAll(filepath.Join(dir, "gen"), 0o755); err != nil {
 		st.Log = err.Error()
@@ -120,6 +175,7 @@ func buildBatch(dir string, schemas []*lib.SchTy, rng *lib.Rng, st *BatchStatus)
 	}
 	t0 := time.Now()
 	var names []string
+	sym := map[string]string{}
 	err := lib.Safely(func() error {
 		tsp, err := lib.SchTypeSystem(schemas, false)
 		if err != nil {
@@ -137,6 +193,12 @@ func buildBatch(dir string, schemas []*lib.SchTy, rng *lib.Rng, st *BatchStatus)
 				adj.CfgUnionMemlayout[name] = "interface"
 			}
 		}
+		for _, name := range names {
+			sym[name] = name
+		}
+		if full {
+			sym, st.Adj = fullAdjunct(adj, types, names, rng)
+		}
 		gengo.Generate(filepath.Join(dir, "gen"), "gen", ts, adj)
 		return nil
 	})
@@ -149,7 +211,7 @@ func buildBatch(dir string, schemas []*lib.SchTy, rng *lib.Rng, st *BatchStatus)
 	var g strings.Builder
 	g.WriteString("package gen\n\nimport \"github.com/ipld/go-ipld-prime/datamodel\"\n\nfunc ZzProto(name string, repr bool) datamodel.NodePrototype {\n\tswitch name {\n")
 	for _, n := range names {
-		fmt.Fprintf(&g, "\tcase %q:\n\t\tif repr {\n\t\t\treturn _%s__ReprPrototype{}\n\t\t}\n\t\treturn _%s__Prototype{}\n", n, n, n)
+		fmt.Fprintf(&g, "\tcase %q:\n\t\tif repr {\n\t\t\treturn _%s__ReprPrototype{}\n\t\t}\n\t\treturn _%s__Prototype{}\n", n, sym[n], sym[n])
 	}
 	g.WriteString("\t}\n\treturn nil\n}\n")
 	os.WriteFile(filepath.Join(dir, "gen", "zz_getter.go"), []byte(g.String()), 0o644)
@@ -227,10 +289,28 @@ func runDriver(drv string, schemas []*lib.SchTy, cases []*Case) error {
 // Case.Obs, writes build/gen/status-<run>.json and, when nodeDiff is set, the AssignNode comparison
 // build/gen/nodediff-<run>.json.
 func Run(run string, schemas []*lib.SchTy, cases []*Case, rng *lib.Rng, nodeDiff bool) []BatchStatus {
+	return runAll(run, schemas, cases, rng, nodeDiff, false)
+}
+
+// RunAdj is Run with an AdjunctCfg that exercises every override the generator offers (fullAdjunct); the
+// packages go to build/gen/<run>-adj/ and their batch statuses are appended to build/gen/status-<run>.json,
+// so that the "generated package compiles" obligation covers them.  Same schemas, same cases, same
+// predictions: overrides must not change behaviour.
+func RunAdj(run string, schemas []*lib.SchTy, cases []*Case, rng *lib.Rng) []BatchStatus {
+	return runAll(run, schemas, cases, rng, false, true)
+}
+
+func runAll(run string, schemas []*lib.SchTy, cases []*Case, rng *lib.Rng, nodeDiff bool, full bool) []BatchStatus {
 	const perBatch = 90
 	var status []BatchStatus
 	var diffs []NodeDiff
 	root := filepath.Join("build", "gen", run)
+	if full {
+		root += "-adj"
+		if old, err := os.ReadFile(filepath.Join("build", "gen", "status-"+run+".json")); err == nil {
+			json.Unmarshal(old, &status)
+		}
+	}
 	os.RemoveAll(root)
 	for b := 0; b*perBatch < len(schemas); b++ {
 		lo, hi := b*perBatch, (b+1)*perBatch
@@ -244,7 +324,7 @@ func Run(run string, schemas []*lib.SchTy, cases []*Case, rng *lib.Rng, nodeDiff
 			}
 		}
 		st := BatchStatus{Dir: filepath.Join(root, fmt.Sprintf("b%d", b)), Schemas: hi - lo, Cases: len(bc)}
-		drv := buildBatch(st.Dir, schemas[lo:hi], rng, &st)
+		drv := buildBatch(st.Dir, schemas[lo:hi], rng, &st, full)
 		if drv == "" {
 			for _, c := range bc {
 				c.Obs = "nobuild"
